@@ -86,6 +86,7 @@ fn run(ctx: &Ctx, out: &mut Out) {
     leg_bytes(ctx, out);
     leg_witness_bytes(ctx, out);
     leg_witness_typed(ctx, out);
+    leg_twins(ctx, out);
     leg_deviations(ctx, out);
     leg_magnitude(ctx, out);
 }
@@ -270,6 +271,81 @@ fn leg_witness_typed(ctx: &Ctx, out: &mut Out) {
                     Err(p) => out.violation(&panic_class(&p), leg, label(), p),
                 }
                 ctx.end();
+            }
+        }
+    }
+}
+
+/// Identity twins: two separate nodes with the same structure and the same arrow (hence the same
+/// identity hash: the encoder emits one of them) that differ only in a type *inside* the expression,
+/// the free summand of an injection, which the surrounding program pins differently on each side:
+///
+///   side(M, w) = comp (comp (inj unit) u) (comp (inj' w) u)      u = unit : 1+M -> 1 (or M+1 -> 1)
+///   main       = comp side(M1, w1) side(M2, w2)
+///
+/// The pointer form of this program (both twins emitted) is in canonical order, has no unused node
+/// and clean padding; its only flaw is the unshared twin. It must be rejected (or re-encode to
+/// itself); the shared form must be accepted.
+fn leg_twins(ctx: &Ctx, out: &mut Out) {
+    let leg = "twins";
+    if !ctx.mine() {
+        return;
+    }
+    let fam = Fam::Core;
+    let jets = JetCodes::new(fam);
+    let n = |sym, l: usize, r: usize| Node { sym, l: l as u8, r: r as u8 };
+    let words = [Sym::Word(0, 1), Sym::Word(1, 2), Sym::Word(2, 9)];
+    for left_inj in [true, false] {
+        for a in 0..words.len() {
+            for b in 0..words.len() {
+                if a == b {
+                    continue;
+                }
+                let (inj, other) = if left_inj { (Sym::InjL, Sym::InjR) } else { (Sym::InjR, Sym::InjL) };
+                let mut dag: Dag = vec![n(Sym::Unit, 0, 0)];
+                let mut sides = vec![];
+                for w in [words[a], words[b]] {
+                    let base = dag.len();
+                    dag.push(n(inj, 0, 0)); // base: inj unit
+                    dag.push(n(Sym::Unit, 0, 0)); // base+1: u
+                    dag.push(n(Sym::Comp, base, base + 1)); // base+2: the twin
+                    dag.push(n(w, 0, 0)); // base+3
+                    dag.push(n(other, base + 3, 0)); // base+4
+                    dag.push(n(Sym::Comp, base + 4, base + 1)); // base+5
+                    dag.push(n(Sym::Comp, base + 2, base + 5)); // base+6
+                    sides.push(base + 6);
+                }
+                dag.push(n(Sym::Comp, sides[0], sides[1]));
+                let what = format!("{}", render(&dag, fam));
+                let Some(p) = Prog::new(&dag, fam) else {
+                    out.violation("twins:host", leg, what, "the reference cannot type the twin program".into());
+                    continue;
+                };
+                let none = vec![None; dag.len()];
+                let shared = wire_list(&p, &none, true);
+                if shared.nodes.len() + 2 != dag.len() && shared.nodes.len() + 1 != dag.len() {
+                    out.violation("twins:host", leg, what, format!("the reference quotient has {} nodes, the program {}: not an identity twin", shared.nodes.len(), dag.len()));
+                    continue;
+                }
+                // pointer form: every DAG node emitted as it stands
+                let pointer: Vec<WNode> = dag
+                    .iter()
+                    .map(|x| match x.sym {
+                        Sym::Unit => WNode::Unit,
+                        Sym::InjL => WNode::InjL(x.l as usize),
+                        Sym::InjR => WNode::InjR(x.l as usize),
+                        Sym::Comp => WNode::Comp(x.l as usize, x.r as usize),
+                        Sym::Word(k, v) => WNode::Word(k, (0..(1usize << k)).rev().map(|i| v >> i & 1 == 1).collect()),
+                        _ => unreachable!(),
+                    })
+                    .collect();
+                let sb = bits_to_bytes(&ref_encode(&shared.nodes, &jets));
+                let pb = bits_to_bytes(&ref_encode(&pointer, &jets));
+                let acc = one(ctx, out, leg, Dec::Redeem, fam, &sb, &[], &format!(" [shared form of {what}]"), &jets, true);
+                if !acc && ctx.is_full_run() {
+                    out.violation("twins:shared-form-rejected", leg, what.clone(), format!("the canonical encoding {} is rejected", hex(&sb)));
+                }
+                one(ctx, out, leg, Dec::Redeem, fam, &pb, &[], &format!(" [both twins emitted: {what}]"), &jets, true);
             }
         }
     }
